@@ -684,6 +684,14 @@ class Interp(object):
                 v = l in r
             elif isinstance(r, (list, tuple)) and is_sym(l):
                 v = duck.Or(*[l == x for x in r]) if r else False
+            elif isinstance(r, (list, tuple)) and (isinstance(l, SObj) or any(isinstance(x, SObj) for x in r)) and not any(is_sym(x) for x in r):
+                # list containment: identity first, then element == item (CPython's list_contains)
+                v = False
+                for x in r:
+                    if x is l:
+                        v = True; break
+                    c = self.truth(self.compare(ast.Eq(), x, l, node))
+                    v = c if v is False else duck.Or(v, c)
             elif not is_sym(l) and not is_sym(r) and not isinstance(l, SObj) and not isinstance(r, SObj):
                 try:
                     v = l in r
